@@ -10,7 +10,26 @@ import (
 	"gvc"
 )
 
+func checkMain(args []string) {
+	fs := flag.NewFlagSet("check", flag.ExitOnError)
+	prop := fs.String("prop", "", "property id")
+	tier := fs.String("tier", "quick", "quick | thorough")
+	repo := fs.String("repo", "/repo", "repository root")
+	verif := fs.String("verif", "/verif", "verif directory")
+	writeLock := fs.Bool("writelock", false, "rewrite the obligation baseline of this property")
+	fs.Parse(args)
+	seed := 0
+	if s := os.Getenv("VERIF_SEED"); s != "" {
+		fmt.Sscan(s, &seed)
+	}
+	os.Exit(gvc.RunCheck(gvc.CheckConfig{Property: *prop, Tier: *tier, Repo: *repo, VerifDir: *verif, Seed: seed, WriteLock: *writeLock}))
+}
+
 func main() {
+	if len(os.Args) > 1 && os.Args[1] == "check" {
+		checkMain(os.Args[2:])
+		return
+	}
 	repo := flag.String("repo", "/repo", "repository root")
 	tags := flag.String("tags", "verif", "build tags")
 	trusted := flag.String("trusted", "/verif/gvc/trusted", "directory of trusted specs")
